@@ -435,3 +435,28 @@ def bound_args(prog, t):
     out = dict(zip(ps, t[2]))
     out.update(dict(t[3]))
     return out
+
+
+def norm_calls(prog, t):
+    """Resolved repo calls in keyword-only form (formal -> actual, sorted),
+    so positional and keyword spellings of one call compare equal."""
+    def f(x):
+        if x[0] == "call":
+            b = bound_args(prog, x)
+            if b is not None and len(b) == len(x[2]) + len(x[3]):
+                return ("call", x[1], (), tuple(sorted(b.items())))
+        return x
+    return map_term(t, f)
+
+
+def base_of(t):
+    """Forget in-place growth: a phi between an object and mutated versions
+    of the same object (mutsub / mut / rec alternatives) is that object."""
+    def f(x):
+        if x[0] == "phi":
+            keep = [a for a in x[1] if not (isinstance(a, tuple) and a and
+                                            a[0] in ("mutsub", "mut", "rec"))]
+            if len(keep) == 1:
+                return keep[0]
+        return x
+    return map_term(t, f)
